@@ -16,11 +16,18 @@ LEVEL_TEXT = ("Theorems in Coq over an abstract field with conjugation (every or
               "rlevinson itself (the 2-D array U, its column stores, the embedded call of levdown) is moreover translated from the snapshot "
               "source to a loop-IR program on every run and `run program (a, efinal)` is compared with Model.LinPred.rlevinson EXACTLY "
               "(QcC, zero tolerance: same outcome / exception class, every entry of R, U, kr, e, dtype tags; orders 1..5, both dtypes, every "
-              "error branch); for the argument checks and order 1 this equality is a theorem about the generated program (Proofs/LoopIRRlevinson.v).")
+              "error branch); for the argument checks and order 1 this equality is a theorem about the generated program (Proofs/LoopIRRlevinson.v). "
+              "(T6) The conversions THEMSELVES - ac2poly, ac2rc, poly2ac, poly2rc, ar2rc, rc2poly, rc2ac: thin wrappers around LEVINSON / rlevinson / "
+              "levup - are translated too, their callees (other modules: imports resolved syntactically, fail-closed) embedded as calls, and "
+              "`run program input` is compared EXACTLY with Model.LinPred.{ac2poly, ac2rc, poly2ac, poly2rc, rc2poly, rc2ac} (same outcome / "
+              "exception class, every entry, dtype tags; orders <= 5, both dtypes, a[0] != 1, empty / short inputs, non-positive-definite r, k = 1, |k| = 1); "
+              "for ac2poly, ac2rc and rc2poly `run program = model` is moreover a theorem (Proofs/LoopIRAc2.v, LoopIRRc2poly.v).")
 TRUSTED = [TRUSTED_LINE, "Coq 8.16.1 kernel + vm_compute (no native_compute)",
            "hand-written model coq/Model/LinPred.v (+ Model/Levinson.v), tied to linear_prediction.py/levinson.py by the correspondence run "
            "(float tolerance) and, for LEVINSON / levup / levdown / rlevinson, by the loop-IR tie (exact; theorem for LEVINSON, levup, levdown, "
-           "and for rlevinson's argument checks and order 1; rlevinson at orders >= 2: exact evaluation on sampled inputs)",
+           "and for rlevinson's argument checks and order 1; rlevinson at orders >= 2: exact evaluation on sampled inputs) and, for the wrappers "
+           "ac2poly / ac2rc / poly2ac / poly2rc / ar2rc / rc2poly / rc2ac, by the loop-IR tie with the callees embedded (exact evaluation on sampled inputs; moreover a theorem "
+           "for ac2poly, ac2rc - from LEVINSON's through the call - and for rc2poly - from levup's, by induction over its loop)",
            "numpy.roots / numpy.poly / scipy.signal.deconvolve inside poly2lsf / lsf2poly: the arguments handed to roots and the values "
            "returned by poly are captured on the unmodified snapshot and compared with the model; root finding itself is not verified",
            "numpy.arctanh/tanh/arcsin/sin (lar/is): compared with math.log1p/expm1/asin/sin; the Coq theorems about them are over stdlib Reals",
@@ -31,7 +38,10 @@ UNPROVED = ["LSF: the roots of the sum/difference polynomials lie on the unit ci
             "positive definiteness of the autocorrelation returned by rc2ac/poly2ac beyond 'LEVINSON returns on it with the same k': search (Toeplitz equations)",
             "lar/is: theorems are about ln/tanh/asin/sin in R, the numpy float functions are tied by an oracle comparison only",
             "loop-IR tie of rlevinson: `run program = Model.LinPred.rlevinson` is a theorem only for the argument checks and order 1; at orders >= 2 "
-            "(step-down loop through the embedded levdown, column stores into U, the R recursion) it is evaluated exactly on sampled inputs only"]
+            "(step-down loop through the embedded levdown, column stores into U, the R recursion) it is evaluated exactly on sampled inputs only",
+            "loop-IR tie of the wrappers poly2ac, poly2rc, rc2ac (they go through rlevinson): exact evaluation on sampled inputs only (no theorem `run program = model`); "
+            "ac2poly / ac2rc: theorem for non-empty data, float dtype only for real-valued data with a positive lag 0; "
+            "the dtype tag of rc2poly's polynomial is not compared (IR scalars carry no dtype)"]
 ASSUMPTIONS = ["exact arithmetic in the theorems; rounding error of the binary64 code is not bounded by any theorem",
                "inputs of the correspondence run are dyadic rationals with few significant bits, orders <= 8, |k| <= 0.9",
                "search: orders 1..16, |k| <= 0.98, cases with prod 1/(1-|k|^2) > 1e6 are regenerated (counted)"]
@@ -465,7 +475,9 @@ def run(ctx):
     ctx.check_theorems('Properties/C11.v')
     # IR programs regenerated from the source vs the hand models: exact, zero tolerance.  rlevinson (2-D array U, column stores, the call of
     # levdown) is translated too: `run program (a, efinal)` = Model.LinPred.rlevinson, same outcome, every entry of R, U, kr, e
-    loopir_tie(ctx, ['LEVINSON', 'levup', 'levdown', 'rlevinson'])
+    # (T6) the conversions themselves - thin wrappers around LEVINSON / rlevinson / levup - are translated with their callees embedded and compared
+    # with Model.LinPred.{ac2poly, ac2rc, poly2ac, poly2rc, rc2poly, rc2ac} (ar2rc: raises NotImplementedError)
+    loopir_tie(ctx, ['LEVINSON', 'levup', 'levdown', 'rlevinson', 'ac2poly', 'ac2rc', 'poly2ac', 'poly2rc', 'ar2rc', 'rc2poly', 'rc2ac'])
 
     def call(f, *args):
         try:
